@@ -228,11 +228,17 @@ func orStr(s, d string) string {
 }
 
 type caseState struct {
-	c    *fw.Case
-	seen map[string]bool
+	c     *fw.Case
+	seen  map[string]bool
+	total int // violations found in this case including repetitions of a signature
 }
 
+// maxViolationsPerCase bounds the work (every violation is localised to a minimal witness) on a tree
+// that is thoroughly broken: the case stops generating further conditions after that many.
+const maxViolationsPerCase = 150
+
 func (s *caseState) violate(sig, format string, args ...any) {
+	s.total++
 	if s.seen[sig] {
 		s.c.Count("violations_suppressed_same_signature", 1)
 		return
@@ -256,6 +262,10 @@ func run(c *fw.Case) {
 	}
 	var kept []parsed
 	for i := 0; i < nConds; i++ {
+		if st.total > maxViolationsPerCase {
+			c.Count("conditions_skipped_after_many_violations", nConds-i)
+			break
+		}
 		var cond *gen.Cond
 		switch {
 		case i%5 == 4:
@@ -289,6 +299,9 @@ func run(c *fw.Case) {
 		pool := condx.BuildPool(r, []*gen.Cond{cond}, 40)
 		nTrue, nFalse, sawV4, sawV6 := 0, 0, false, false
 		for _, f := range pool {
+			if st.total > maxViolationsPerCase {
+				break
+			}
 			want := cond.Eval(f)
 			if want {
 				nTrue++
